@@ -268,7 +268,7 @@ def generate(types, exp, emit_item, leaf_ok=(), emit_leaf_defaults=False):
                         raise AnchorLost("%s::recurse_visit: Vec shape of field %s not found in the expansion" % (T, f))
                     rewrites.append({"old": "match self.%s.iter().map(|x| v.<m>(x)).find(|r| r.is_err()) { Some(err) => err, None => Ok(default) }" % f, "new": "the loop that stops at the first Err", "note": "std-equivalent: Iterator::map/find (lazy: stops at the first Err)"})
                 elif c["cont"] == "Box":
-                    rx = r"&self\." + f + r"\.as_ref\(\)"
+                    rx = r"&?self\." + f + r"\.as_ref\(\)"
                     body, n = re.subn(rx, "&*self." + f, body)
                     if n != 1:
                         raise AnchorLost("%s::recurse_visit: Box shape of field %s not found in the expansion" % (T, f))
